@@ -5,7 +5,7 @@
    metadata store), Done, Close (any number of times per handle), TTL expiry of either cache, Use, Refresh. *)
 From Coq Require Import List Arith ZArith Bool.
 From SV Require Import Model.Refcache Proofs.Refcache.
-From SV Require Import Model.Resolver Proofs.Resolver.
+From SV Require Import Model.Resolver Proofs.Resolver Proofs.ResolverLock.
 Import ListNotations.
 
 (* held_layer_usable.  In every reachable state, a layerRef whose holder called neither Done nor Close refers to a
@@ -81,28 +81,61 @@ Theorem C12_failed_resolve_leaks_nothing :
 Proof. exact tstep_err. Qed.
 Print Assumptions C12_failed_resolve_leaks_nothing.
 
-(* single_instance.  FULL STATEMENT (not proved here): "two Resolve calls for one name never both run between
-   resolveLock.Lock and Unlock, hence a Resolve reaches layerCache.Add only when no instance of that name is cached,
-   hence at most one instance per name is ever created while another is cached" — this needs the per-name lock
-   discipline as a further invariant (mutual exclusion of PWait-exits per name); it is checked on every run by the
-   harness oracle ("two Resolve calls ... run past the per-name lock together") and by the model/code comparison of the
-   Blocked events, but not proved in Coq.
-   PROVED (extra hypothesis spelled out: the call does get the lock, i.e. the name's lock is free when it looks up):
-   a Resolve that looks up a name whose instance v is cached obtains exactly v (it holds a done-closure of v), and
-   if v then passes the connectivity check the call returns v, not a new instance. *)
-Theorem C12_single_instance_partial :
+(* single_instance.  In every reachable state:
+   (1) at most one Resolve call per name is between resolveLock.Lock and Unlock (stages other than PWait/PDone);
+   (2) such a call holds the lock of its name, so that every other Resolve of that name blocks (its sub-step is a
+       no-op returning EBlocked);
+   (3) a call that is past its layer-cache lookup (missed, or removed the entry that failed its check) — in particular
+       one that reaches layerCache.Add — finds nothing cached under its name, and likewise a call between its blob-cache
+       lookup and blobCache.Add finds no blob cached: Add is only reached when nothing is cached for the name (the
+       "!added" branches of Resolve and resolveBlob are dead, no second instance is ever created beside a cached one);
+   (4) whenever a sub-step returns a layer: either it is fresh, created at layerCache.Add with nothing cached before
+       and now the cached instance of the name, or it is the instance the call obtained from the cache at its lookup. *)
+Theorem C12_single_instance :
+  forall (os : list Resolver.op),
+    let s := Resolver.exec Resolver.init os in
+    (forall t1 t2 th1 th2, nth_error (thrs s) t1 = Some th1 -> nth_error (thrs s) t2 = Some th2 ->
+       active (t_pc th1) = true -> active (t_pc th2) = true -> t_name th1 = t_name th2 -> t1 = t2) /\
+    (forall t th, nth_error (thrs s) t = Some th -> active (t_pc th) = true ->
+       In (t_name th) (locks s) /\
+       forall t' th' ok, nth_error (thrs s) t' = Some th' -> t_pc th' = PWait -> t_name th' = t_name th ->
+         tstep s t' ok = (s, EBlocked)) /\
+    (forall t th, nth_error (thrs s) t = Some th ->
+       (lmissed (t_pc th) = true -> lru_find (lru (lc s)) (t_name th) = None) /\
+       (bmissed (t_pc th) = true -> lru_find (lru (bc s)) (t_name th) = None)) /\
+    (forall t th ok v fr, nth_error (thrs s) t = Some th -> snd (tstep s t ok) = ERet v fr ->
+       (fr = true /\ (exists bh d, t_pc th = PMeta bh d) /\ lru_find (lru (lc s)) (t_name th) = None /\
+        v = length (ents (lc s)) /\ lru_find (lru (lc (fst (tstep s t ok)))) (t_name th) = Some v)
+       \/ (fr = false /\ exists h, t_pc th = PHit h /\ hval (lc s) h = Some v /\ lc (fst (tstep s t ok)) = lc s)).
+Proof. intros os s. exact (single_instance s (Proofs.Resolver.reach_inv os) (Proofs.ResolverLock.reach_LI os)). Qed.
+Print Assumptions C12_single_instance.
+
+(* ... the lookup itself: a Resolve that gets the lock while instance v is cached under its name obtains a
+   done-closure of exactly v (any state). *)
+Theorem C12_lookup_returns_cached :
   forall (s : Resolver.st) (t : nat) (th : thr) (v : nat),
     nth_error (thrs s) t = Some th -> t_pc th = PWait ->
     mem (t_name th) (locks s) = false -> lru_find (lru (lc s)) (t_name th) = Some v ->
     let s1 := fst (tstep s t true) in
-    pc_of s1 t = PHit (length (hs (lc s))) /\ hval (lc s1) (length (hs (lc s))) = Some v /\
-    (forall th1, nth_error (thrs s1) t = Some th1 -> t_pc th1 = PHit (length (hs (lc s))) ->
-       layer_flags s1 (length (hs (lc s))) = (false, false) -> snd (tstep s1 t true) = ERet v false).
-Proof.
-  intros s t th v Ht Hp Hl Hf s1. destruct (lookup_hit s t th v Ht Hp Hl Hf) as [A B].
-  split; [exact A|]. split; [exact B|]. intros th1 H1 H2 H3. exact (hit_returns s1 t th1 _ v H1 H2 H3 B).
-Qed.
-Print Assumptions C12_single_instance_partial.
+    pc_of s1 t = PHit (length (hs (lc s))) /\ hval (lc s1) (length (hs (lc s))) = Some v.
+Proof. exact lookup_hit. Qed.
+Print Assumptions C12_lookup_returns_cached.
+
+(* ... and overlapping requests share the instance: once a Resolve call holds a done-closure of instance v from its
+   lookup (stage PHit h), then after ANY further history of other ops (other resolvers of other names, Done/Close of any
+   holder incl. evicting ones, expiry of either cache, refreshes; the per-name lock keeps resolvers of the same name out)
+   its next sub-step either returns exactly v, shared (not fresh), or — the cached one failed its check — returns
+   nothing and goes on to evict and re-resolve. *)
+Theorem C12_overlapping_calls_share :
+  forall (s : Resolver.st) (os2 : list Resolver.op) (t n h v : nat),
+    nth_error (thrs s) t = Some (mkT n (PHit h)) -> hval (lc s) h = Some v ->
+    Forall (not_step_of t) os2 ->
+    let s2 := Resolver.exec s os2 in
+    nth_error (thrs s2) t = Some (mkT n (PHit h)) /\ hval (lc s2) h = Some v /\
+    forall ok, snd (tstep s2 t ok) = ERet v false \/
+               (snd (tstep s2 t ok) = ENone /\ pc_of (fst (tstep s2 t ok)) t = PEvict h).
+Proof. intros s os2. exact (overlap_same os2 s). Qed.
+Print Assumptions C12_overlapping_calls_share.
 
 (* The states the harness observes (coarse steps: a Resolve runs from one external call to the next, and a waiter
    on the per-name lock proceeds when the lock is released) satisfy the same invariant, hence the same theorems. *)
@@ -134,3 +167,62 @@ Example C12_nonvacuous_failed :
   let s := cexec Resolver.init [RStart 0; RStep 0 true] in
   snd (tstep s 0 false) = EErr /\ view s = (1, 1, 0) /\ view (fst (tstep s 0 false)) = (0, 0, 0).
 Proof. vm_compute. repeat split. Qed.
+
+(* Non-vacuity of single_instance: two Resolve calls of name 0; the first is past the lock (at the registry call, its
+   layer- and blob-cache lookups missed), the second blocks; when the first has returned fresh instance 0, the second's
+   lookup obtains instance 0 and returns it shared. *)
+Example C12_nonvacuous_single_instance :
+  let s := cexec Resolver.init [RStart 0; RStart 0] in
+  (exists th, nth_error (thrs s) 0 = Some th /\ active (t_pc th) = true /\ lmissed (t_pc th) = true /\ bmissed (t_pc th) = true) /\
+  tstep s 1 true = (s, EBlocked) /\
+  crun Resolver.init [RStart 0; RStart 0; RStep 0 true; RStep 0 true; RStep 1 true] =
+    [(EPause 3, ENone, (0, 1, 0)); (EBlocked, ENone, (0, 1, 0)); (EPause 4, ENone, (1, 1, 0));
+     (ERet 0 true, EPause 1, (1, 1, 1)); (ERet 0 false, ENone, (1, 1, 1))].
+Proof. vm_compute. split; [eexists; repeat split|]. split; reflexivity. Qed.
+
+(* ---------------------------------------------------------------------------------------------------------
+   The same at the level of fs/fs.go (Model/FsMount.v): Mount = Resolve of the target + pre-resolve of the
+   neighbouring layers (released with Done at once), registration under the mountpoint; Check = layer Check, then
+   Refresh; Unmount = unregister + Close.  A history is any list of: starting a Mount, single sub-steps of any of
+   its Resolve calls (outcomes chosen by the adversary), Check, Unmount, Use, expiry of either cache. *)
+From SV Require Model.FsMount Proofs.FsMount.
+Module F := SV.Model.FsMount.
+
+(* every filesystem-level state is a reachable resolver state: all theorems above hold of it *)
+Theorem C12_fs_states_are_resolver_states :
+  forall (fos : list F.fop), exists os, F.rs (F.fexec F.finit fos) = Resolver.exec Resolver.init os.
+Proof. exact Proofs.FsMount.freach. Qed.
+Print Assumptions C12_fs_states_are_resolver_states.
+
+(* a mounted layer stays usable: whatever happened since its Mount (other mounts resolving, failing, sharing or
+   re-resolving the same layer; unmounts of other mountpoints; expiry; failed checks), the layer registered under a
+   mountpoint is an unreleased layerRef with open layer and blob; reads see it open; Check succeeds when the
+   connectivity check passes, and also when it fails but the registry answers the Refresh. *)
+Theorem C12_mounted_layer_usable :
+  forall (fos : list F.fop) (mp u : nat),
+    let s := F.fexec F.finit fos in
+    F.lookup mp (F.mnts s) = Some u ->
+    (exists h, nth_error (uh (F.rs s)) u = Some (h, false) /\ layer_flags (F.rs s) h = (false, false)) /\
+    F.fstep s (F.FUse mp) = (s, EUse false false) /\
+    (forall ok2, F.fstep s (F.FCheck mp true ok2) = (s, ENone)) /\
+    F.fstep s (F.FCheck mp false true) = (s, ENone).
+Proof. exact Proofs.FsMount.mounted_usable. Qed.
+Print Assumptions C12_mounted_layer_usable.
+
+(* the states the fs-level harness observes (a Mount runs its Resolve calls to completion) are covered *)
+Theorem C12_fs_coarse_histories_covered :
+  forall (os : list F.cop) (mp u : nat),
+    let s := Proofs.FsMount.cfexec F.finit os in
+    F.lookup mp (F.mnts s) = Some u -> F.fstep s (F.FUse mp) = (s, EUse false false).
+Proof. exact Proofs.FsMount.coarse_mounted_usable. Qed.
+Print Assumptions C12_fs_coarse_histories_covered.
+
+(* Non-vacuity: two mountpoints share layer 0 of image 0 (neighbours 1 and 2 pre-resolved and released); layer and
+   blob expire, mountpoint 0 is unmounted (evicting Close): mountpoint 1 is still registered and serves. *)
+Example C12_nonvacuous_mounted :
+  F.cfrun F.finit [F.CMount 0 0 [1; 2] [[]; []; []]; F.CMount 1 0 [1; 2] [[]; []; []];
+                   F.COp (F.FExpireL 0); F.COp (F.FExpireB 0); F.COp (F.FUnmount 0); F.COp (F.FUse 1);
+                   F.COp (F.FCheck 1 false false); F.COp (F.FUnmount 1)] =
+  [(ENone, (3, 3, 3, 1)); (ENone, (3, 3, 3, 2)); (ENone, (3, 3, 3, 2)); (ENone, (3, 3, 3, 2)); (ENone, (3, 3, 3, 1));
+   (EUse false false, (3, 3, 3, 1)); (EErr, (3, 3, 3, 1)); (ENone, (2, 2, 2, 0))].
+Proof. vm_compute. reflexivity. Qed.
